@@ -5,18 +5,19 @@ from core import hx, unhx
 
 LEAN_MODULE = 'QM.Props.C15Cmd'
 THEOREMS = ['Cv.C15_history_merge', 'Cv.C15_history', 'Cv.C15_list', 'Cv.C15_list_total', 'Cv.C15_last', 'Cv.C15_bool_reset',
-            'Cv.C15_keyval_fold', 'Cv.C15_keyval', 'Cv.C15_network_command_last', 'Cv.C15_network_command_last_dropins']
+            'Cv.C15_keyval_fold', 'Cv.C15_keyval', 'Cv.C15_network_command_last', 'Cv.C15_network_command_last_dropins',
+            'Cv.string_key_last_in_block', 'Cv.C15_image_command_last', 'Cv.C15_pod_command_last', 'Cv.C15_build_command_last', 'Cv.C15_container_command_last']
 ASSUMPTIONS = [
     'MM.SUnit (insertion-ordered association lists) models the ordered-multimap crate as SystemdUnit uses it; tied to the code by unit-script correspondence (load/merge/add/set/prepend/rename then all lookups)',
-    'the command-level part ("the generated command reflects exactly that effective value") is checked on real conversions of generated histories (oracle), per key kind; it is not yet a theorem over the converter model',
+    'the command-level part ("the generated command reflects exactly that effective value") is a theorem over the converter models for the single-valued table keys of the .network, .image, .pod, .build and .container converters (C15_<type>_command_last: the last assignment, wherever made, is the option\'s value in the generated command); for the other key kinds it is checked on real conversions of generated histories (oracle), per key kind',
 ]
 LEVEL_TEXT = ('Proof + oracle: Lean theorems over the multimap model — the assignment history of any number of merged files is the concatenation of '
               'their histories (C15_history, induction over files and entries), list lookups return exactly what was assigned after the last empty '
               'assignment (C15_list, applicable to every history by C15_list_total), single-valued lookups return the last assignment, name=value '
-              'lookups carry the last value per name (C15_keyval), an empty last boolean assignment is "unset". At the command level, for the '
-              '.network converter model (QM/Props/C15Cmd.lean): the last assignment of a single-valued table key — in the main file or in any '
-              'drop-in, in merge order — is the value of its option on the generated command line (C15_network_command_last[_dropins], from '
-              'C15_last, C15_history and the command shape of C02); for the other converters the command level is decided by the oracle. The model is tied to unit.rs by '
+              'lookups carry the last value per name (C15_keyval), an empty last boolean assignment is "unset". At the command level '
+              '(QM/Props/C15Cmd.lean), for the .network, .image, .pod, .build and .container converter models: the last assignment of a single-valued table key — in the main file or in any '
+              'drop-in, in merge order — is the value of its option on the generated command line (C15_<type>_command_last, C15_network_command_last_dropins, from '
+              'C15_last, C15_history and the command shapes of C02); for list and name=value keys the command level is decided by the oracle. The model is tied to unit.rs by '
               'correspondence on random histories split over main file, repeated sections and drop-ins; the resulting podman command is checked '
               'against an independent fold on real conversions.')
 LEVEL_NOTE = 'Trusted: Lean kernel; correspondence on generated histories; the Python reference fold used as the statement of the rule for the command-level oracle.'
